@@ -5,3 +5,4 @@ import Drv.Bonf
 import Drv.DepGraph
 import Drv.EnvP
 import Drv.RunCmd
+import Drv.Report
